@@ -462,7 +462,9 @@ def handle (s : Sys) (self : Cid) (e : Env) : Sys :=
       if c.state = .running then
         let s1 := upd s self (fun x => { x with state := .killing, restarting := some poison })
         doKill s1 self beh e poison
-      else s
+      -- the supervisor paused the mailbox before it sent the directive: the ignored directive resumes it (a stopping
+      -- actor's mail drains into dead letters, a zombie keeps consuming its mail)
+      else upd s self (fun x => { x with paused := false })
     | .watch =>
       match e.sender with
       | some w =>
